@@ -18,6 +18,7 @@ func TestMain(m *testing.M) {
 	vh.Assume("byte order of typed reads/writes is the library's announced little endian; writes into the middle of existing data and reads past the write frontier inside a padded tx packet are not generated (no caller does either); a saved position is only restored before the next discard (documented as volatile)")
 	vh.Rule("also: three queues (two receive sides, one transmit side) used in turns by a generated schedule; slices handed out by Bytes keep their content over later operations")
 	vh.Rule("also: the caller treats slices returned by Bytes as its own memory (changes every byte, appends to them): later reads, also after a restore, still return the enqueued bytes")
+	vh.Rule("also: a failed Bytes / Read hands out all the bytes it consumed (n counts them)")
 	vh.Main(m, "C15")
 }
 
